@@ -48,8 +48,8 @@ def check(st):
                     if not (close(arr[0], want) and (not np.isfinite(arr[1]) or arr[1] < arr[0])):
                         v.append(('P_RAM curve: not strictly decreasing / array form differs', case, want, arr.tolist()))
                 else:
-                    if not close(float(wc.calc_P_RAM(1e30)), Z * 2.0 ** -inp['jd']):
-                        v.append(('P_RAM curve: parameter for N -> inf is not the endurance value', case, Z * 2.0 ** -inp['jd'], float(wc.calc_P_RAM(1e30))))
+                    if not close(float(wc.calc_P_RAM(1e307)), Z * 2.0 ** -inp['jd']):
+                        v.append(('P_RAM curve: parameter for N -> inf is not the endurance value', case, Z * 2.0 ** -inp['jd'], float(wc.calc_P_RAM(1e307))))
             elif part == 'curve_raj':
                 m = inp['m']
                 wc = pd.Series({'P_RAJ_Z': Z, 'P_RAJ_D_0': Z * 2.0 ** -inp['jd0'], 'd_RAJ': -1.0 / m}).woehler_P_RAJ
@@ -148,6 +148,22 @@ def run(chk):
                 chk.violation('safety index is not the negative standard-normal quantile', {'P_A': pa}, float(-stats.norm.ppf(pa)), float(b), part='beta')
         except Exception as ex:
             chk.violation('compute_beta raised %r' % ex, {'P_A': pa}, part='beta')
+    # the safety index is a function of P_A alone: far-tail probabilities, asked in different orders within one process
+    import math
+    sweep = [10.0 ** (-12 + 0.2 * k) for k in range(0, 58)] + [1.2e-10, 1.4e-10, 3e-11, 4e-11, 0.5]
+    for order in (sorted(sweep), sorted(sweep, reverse=True), sweep[::3] + sweep[1::3] + sweep[2::3]):
+        for pa in order:
+            try:
+                b = float(compute_beta(pa))
+                chk.evals(1)
+                want = float(-stats.norm.ppf(pa))
+                worst = max(worst, abs(b - want))
+                if abs(b - want) > 1e-6 + 1e-6 * abs(want):
+                    chk.violation('safety index is not the negative standard-normal quantile (far tail / call history)', {'P_A': pa}, want, b, part='beta')
+                    break
+            except Exception as ex:
+                chk.violation('compute_beta raised %r' % ex, {'P_A': pa}, part='beta')
+                break
     chk.part('compute_beta', probabilities=10, worst_abs_error=worst, note='numeric spot check only; outside the TLA+ lattice (DESIGN 6)')
     chk.cov['rule'] = ('TLC enumerates five sub-lattices: P_RAM curve (4 slope pairs incl. |d_2| > |d_1|, 3 endurance positions, P = P_Z 2^j), P_RAJ curve with updated endurance value, '
                        'P_RAM parameter (S_a x S_m sign/zero cases at M_sigma = 1/4), hysteresis tables of up to MaxRows rows (closed/half, pass 1/2, N = 1000*2^e) for the accumulation, '
